@@ -268,6 +268,14 @@ def check_kernel_siblings(run, ix):
             run.fail(F('Y-R2', LIBMPF, b, 'def %s' % b, 'special values differ between the backend '
                        'implementations: %s returns %s, %s returns %s' % (a, sorted(spa), b, sorted(spb)),
                        line=fb.lineno))
+        prob = guard_order_problem(fa.node, fb.node)
+        if prob is None:
+            run.ok('Y-R2', '%s / %s try their early-return cases in the same order' % (a, b))
+        else:
+            (t1, r1), (t2, r2) = prob
+            run.fail(F('Y-R2', LIBMPF, b, 'if %s: return %s' % (t1, r1), 'the two backend implementations test '
+                       '`%s` (-> %s) and `%s` (-> %s) in opposite order; both can hold for the same operands, '
+                       'so the backends return different values there' % (t1, r1, t2, r2), line=fb.lineno))
         # zero-mantissa guard in front of the normaliser call
         for f in (fa, fb):
             calls = [x for x in _walk_own(f.node) if isinstance(x, ast.Call) and
@@ -282,6 +290,35 @@ def check_kernel_siblings(run, ix):
                 else:
                     run.fail(F('Y-R2', LIBMPF, f.name, c, 'the rounding call is reached with a possibly zero '
                                'mantissa (inf/nan/0 operands): the sibling guards it', line=c.lineno))
+
+
+def early_guards(fn):
+    """[(test text, return text, names in test)] of the top-level `if T: return E` statements"""
+    out = []
+    for st in fn.body:
+        if isinstance(st, ast.If) and not st.orelse and len(st.body) == 1 and isinstance(st.body[0], ast.Return):
+            names = frozenset(n.id for n in ast.walk(st.test) if isinstance(n, ast.Name))
+            out.append((norm(st.test), norm(st.body[0].value), names))
+    return out
+
+
+def guard_order_problem(fa, fb):
+    """two early-return guards that both siblings have, whose tests can hold together (they look at
+    different variables) and whose results differ, must be tried in the same order"""
+    ga, gb = early_guards(fa), early_guards(fb)
+    ia = dict(((t, r), i) for i, (t, r, n) in enumerate(ga))
+    ib = dict(((t, r), i) for i, (t, r, n) in enumerate(gb))
+    common = [k for k in ia if k in ib]
+    names = dict(((t, r), n) for t, r, n in ga)
+    for x in common:
+        for y in common:
+            if x == y or x[1] == y[1]:
+                continue
+            if names[x] & names[y]:
+                continue            # same variable: assumed mutually exclusive cases
+            if (ia[x] < ia[y]) != (ib[x] < ib[y]):
+                return x, y
+    return None
 
 
 def canon_class(c):
